@@ -437,8 +437,17 @@ def closest_point_triangle(a, b, c):
         n = np.cross(ab, ac)
     n_len_sq = np.dot(n, n)
 
-    # Check degenerate
-    if n_len_sq < EPSILON_SQR:
+    # Check degenerate. The normal of a triangle with two (almost) coinciding
+    # vertices is the cross product of an edge with a difference of nearly
+    # equal numbers, i.e. rounding noise, even if its length is not tiny.
+    ab_len_sq = ab.dot(ab)
+    ac_len_sq = ac.dot(ac)
+    bc_len_sq = bc.dot(bc)
+    min_edge_len_sq = min(ab_len_sq, min(ac_len_sq, bc_len_sq))
+    max_vertex_len_sq = max(a.dot(a), max(b.dot(b), c.dot(c)))
+    if (n_len_sq < EPSILON_SQR
+            or min_edge_len_sq <= EPSILON * max_vertex_len_sq
+            or n_len_sq <= EPSILON * ab_len_sq * max(ac_len_sq, bc_len_sq)):
         # Degenerate, fallback to edges
 
         # Edge AB
